@@ -72,6 +72,7 @@ fn build(cn: &str, san: Option<&str>, ca: bool, not_before: i64, not_after: i64,
 pub struct Pki {
     pub ca: Identity,
     pub unrelated_ca: Identity,
+    #[allow(dead_code)]
     pub hidden_ca: Identity,
     /// index = server certificate kind
     pub servers: Vec<(&'static str, Identity)>,
